@@ -247,6 +247,46 @@ pub fn dparse(fields: &[&str]) -> String
 	)
 }
 
+/// dbig <functions> <statements> <statement>: a module of that many functions with that many copies of the statement
+/// each (built here, so that sources of tens of megabytes need not cross the pipe), lexed and parsed: the counts only.
+/// For the limits of the 24-bit token and node numbers.
+pub fn dbig(fields: &[&str]) -> String
+{
+	let functions: usize = fields.get(0).and_then(|x| x.parse().ok()).unwrap_or(1);
+	let statements: usize = fields.get(1).and_then(|x| x.parse().ok()).unwrap_or(1);
+	let statement = unescape(fields.get(2).copied().unwrap_or(""));
+	let mut src: Vec<u8> = Vec::with_capacity(functions * (statements * statement.len() + 16));
+	for _ in 0..functions
+	{
+		src.extend_from_slice(b"fn f()\n{\n");
+		for _ in 0..statements
+		{
+			src.extend_from_slice(&statement);
+		}
+		src.extend_from_slice(b"}\n");
+	}
+	let tokens = lexer::lex(&src, "f.pn");
+	let num_tokens = tokens.base_tokens().len();
+	if let Some(errors) = tokens.errors()
+	{
+		return format!("lexerr len={} tokens={} codes={}", src.len(), num_tokens, crate::codes_str(&errors.codes()));
+	}
+	let tree = penne::delta::parser::parse(&tokens);
+	let codes = match tree.errors(&tokens)
+	{
+		Some(e) => crate::codes_str(&e.codes()),
+		None => String::new(),
+	};
+	format!(
+		"ok len={} tokens={} nodes={} decls={} codes={}",
+		src.len(),
+		num_tokens,
+		tree.num_parse_nodes(),
+		tree.num_declarations(),
+		codes
+	)
+}
+
 /// dtokens <bytes>: the second-generation token stream in the wire format of the Lean syntax model:
 /// `Kind:hex(text):value:type` separated by spaces; text = identifier / builtin name, literal spelling,
 /// body of a string literal
